@@ -13,6 +13,8 @@ TIER="${SELFTEST_TIER:-quick}"
 S="$(mktemp -d /tmp/rosu-selftest.XXXXXX)" || exit 2
 trap 'rm -rf "$S"' EXIT INT TERM
 export CARGO_NET_OFFLINE=true
+# shorter watchdog in the selftest (a hang mutant otherwise costs 2 x 300 s); affects only how long a hang takes to report
+export VERIF_HANG_MS="${VERIF_HANG_MS:-30000}"
 mkdir -p "$S/out"
 cp "$VERIF_DIR/known_findings.json" "$S/out/" 2>/dev/null
 
